@@ -1,0 +1,28 @@
+//go:build verif
+
+// Contracts for the stringy authorizer, read by /verif (tqv). Comment-only.
+package stringy
+
+//@ func NewCommandBasedAuthorizer(ctx context.Context, l loggerProvider, b tq.AuthorRequest, u config.User) (res *CommandBasedAuthorizer)
+//@   ensures fresh(res)
+//@   ensures res != nil ==> res.loggerProvider == l
+
+//@ func NewSessionBasedAuthorizer(ctx context.Context, l loggerProvider, b tq.AuthorRequest, u config.User) (res *SessionBasedAuthorizer)
+//@   ensures fresh(res)
+//@   ensures res != nil ==> res.loggerProvider == l
+
+//@ func (a CommandBasedAuthorizer) evaluate() (ok bool)
+
+//@ func (sa SessionBasedAuthorizer) evaluate() (args []string, status tq.AuthorStatus)
+
+//@ func (a Authorizer) Handle(response tq.Response, request tq.Request)
+//@   implements tq.Handler.Handle
+//@   requires a.loggerProvider != nil
+
+//@ func (a CommandBasedAuthorizer) Handle(response tq.Response, request tq.Request)
+//@   implements tq.Handler.Handle
+//@   requires a.loggerProvider != nil
+
+//@ func (sa SessionBasedAuthorizer) Handle(response tq.Response, request tq.Request)
+//@   implements tq.Handler.Handle
+//@   requires sa.loggerProvider != nil
